@@ -173,3 +173,193 @@ Example C17_nonvacuous :
       /\ apply_rule t r = Ok (Some 4, mkTape 0 [] [(2, 6); (3, 2); (4, 9)]))
   /\ py_calculate_diff 10 8 6 4 = Ret (Some (Plus (-2))).
 Proof. vm_compute. repeat split; reflexivity. Qed.
+
+(** ================================================================== *)
+(** * Whole runs: tm/machine.py [Machine.run] vs src/machine.rs [run_prover]
+
+    tm/machine.py and tm/prover.py ARE modelled now (Model/PyMachineModel.v,
+    Model/PyProverModel.v; tied to the real Python code by tools/pyrun_diff.py
+    and tools/pycomp_diff.py) and the whole-run agreement is a THEOREM for the
+    runs on which the decidable guard [run_inside] holds.  The guard is
+    evaluated on the Python side of the run and names exactly the places
+    where the two code bases are different programs (D1..D6 in
+    Proofs/PyRunAgree.v); for D1 and D3 concrete programs on which the four
+    compared fields differ are machine-checked below, for D2, D4, D5, D6 the
+    difference is machine-checked on the component.  ./check C17 evaluates the
+    guard on every explored run (bbm [pyguard]). *)
+From BB Require Import InstrsModel MachineModel ProverModel PyProverModel PyMachineModel PyRunAgree.
+
+(** the guard, pinned: before every iteration of Machine.run the tape is small,
+    the cycle number fits i32, and the call of try_rule stays inside *)
+Theorem C17_py_rs_run_agree : forall comp lim r r',
+  run_inside comp lim = true ->
+  py_run comp lim = PyDone r ->
+  run_prover comp lim = Ok r' ->
+  results_agree r r'.
+Proof. exact py_rs_run_agree. Qed.
+Print Assumptions C17_py_rs_run_agree.
+
+(** one call of try_rule on related provers (prover level) *)
+Theorem C17_py_try_rule_agree : forall comp pp pv cyc st t,
+  prover_rel pp pv -> canon_tape t -> tape_small t = true -> cyc < 2147483648 ->
+  try_inside comp pp cyc st t = true ->
+  match try_rule comp pv cyc st t with
+  | Panic => True
+  | Ok (res, pv') =>
+      let '(pres, pp') := py_try_rule comp pp cyc st t in
+      pres_class pres = PcLeave \/
+      (prover_rel pp' pv' /\
+       match res with
+       | None => pres_class pres = PcNone
+       | Some (Got r) => pres_class pres = PcRule r /\ rule_good r
+       | Some ConfigLimit => pres_class pres = PcCfg
+       | Some InfiniteRule => pres_class pres = PcInf
+       | Some MultRule => False
+       end)
+  end.
+Proof. exact try_rule_agree. Qed.
+Print Assumptions C17_py_try_rule_agree.
+
+(** the prover's own simulator: Rust's answer (unless it panics) is Python's *)
+Theorem C17_py_run_simulator_agree : forall comp pp pv,
+  lookup_eq (pp_rules pp) (pv_rules pv) -> rules_good (pv_rules pv) ->
+  forall d st t, canon_tape t -> sim_inside comp pp (Z.to_N d) st t = true ->
+  match run_simulator comp pv d st t with
+  | Panic => True
+  | Ok x => py_run_simulator comp pp d st t = PRet x /\
+            (forall st' t', x = Some (st', t') -> canon_tape t')
+  end.
+Proof. exact run_simulator_agree. Qed.
+Print Assumptions C17_py_run_simulator_agree.
+
+(** D3/D8: difference inference on ANY table of positive counts below 2^31.
+    Python's "no rule" answers (an UnknownRule column; a SuspectedRule, which
+    run() turns into "no rule") are "no rule" for rules.rs too; a table without
+    multiplicative or second-difference column yields the same rule *)
+Theorem C17_py_rs_make_rule : forall c1 c2 c3 c4,
+  counts_ok c1 -> counts_ok c2 -> counts_ok c3 -> counts_ok c4 ->
+  match py_make_rule_raw c1 c2 c3 c4 with
+  | Ret None | Raise (ExSuspectedRule _ _) => make_rule c1 c2 c3 c4 = Ok None
+  | Ret (Some (r, sd)) => sd = false -> py_has_mult r = false -> make_rule c1 c2 c3 c4 = Ok (Some r)
+  | _ => True
+  end.
+Proof. exact py_rs_make_rule. Qed.
+Print Assumptions C17_py_rs_make_rule.
+
+(** the one multiplicative shape of rules.rs is the first shape of rules.py *)
+Theorem C17_rs_mult_is_py_mult : forall a b c d q r,
+  cnt_ok a -> cnt_ok b -> cnt_ok c -> cnt_ok d ->
+  calculate_diff a b c d = Ok (DGot (MultOp q r)) ->
+  py_calculate_diff a b c d = Ret (Some (MultOp q r)).
+Proof. exact rs_mult_py_mult. Qed.
+Print Assumptions C17_rs_mult_is_py_mult.
+
+(** ---- the guard is not vacuous: a run with 22 rule applications (one
+    proved rule, spin-out, three blank-tape records that Python stamps -1) ---- *)
+Definition C17_run_example : comp_prog :=
+  [((0,0),(1,true,1)); ((0,1),(1,true,0)); ((1,0),(0,true,2)); ((1,1),(0,true,1));
+   ((2,0),(0,true,3)); ((2,1),(1,true,0)); ((3,0),(1,false,3)); ((3,1),(1,false,1))].
+Example C17_run_nonvacuous :
+  run_inside C17_run_example 120 = true /\
+  (exists r, py_run C17_run_example 120 = PyDone r /\ pr_kind r = PkSpnout /\ pr_marks r = 0 /\
+             pr_rulapp r = 22 /\ pr_blanks r = [(1, (-1)%Z); (2, (-1)%Z); (3, (-1)%Z)] /\ pr_cycles r = 64) /\
+  run_prover C17_run_example 120 = Ok (mkRes spnout 466 64 0 22 [(1, 464); (2, 465); (3, 466)] None).
+Proof.
+  split; [vm_compute; reflexivity|]. split; [|vm_compute; reflexivity].
+  remember (py_run C17_run_example 120) as x eqn:E. vm_compute in E. subst x.
+  eexists. split; [reflexivity|]. repeat split.
+Qed.
+
+(** ---- D1: Python confirms a rule by simulating more than 90_000 cycles
+    ahead, prover.rs:183-185 declines: outcome kind infrul vs xlimit.
+    Program [1RB 1LA 3RB 0RB ...  0LB 2RB 3RB 4LA 1RB], 2910 cycles. ---- *)
+Definition C17_d1_program : comp_prog :=
+  [((0,0),(1,true,1)); ((0,1),(1,false,0)); ((0,2),(3,true,1)); ((0,3),(0,true,1));
+   ((1,0),(0,false,1)); ((1,1),(2,true,1)); ((1,2),(3,true,1)); ((1,3),(4,false,0)); ((1,4),(1,true,1))].
+Theorem C17_whole_run_differs_D1 :
+  (exists r, py_run C17_d1_program 2910 = PyDone r /\ pr_kind r = PkInfrul /\ pr_cycles r = 2899) /\
+  (exists r', run_prover C17_d1_program 2910 = Ok r' /\ r_result r' = xlimit) /\
+  run_inside C17_d1_program 2910 = false.
+Proof.
+  split; [|split].
+  - remember (py_run C17_d1_program 2910) as x eqn:E. vm_compute in E. subst x.
+    eexists. split; [reflexivity|]. split; reflexivity.
+  - remember (run_prover C17_d1_program 2910) as x eqn:E. vm_compute in E. subst x.
+    eexists. split; reflexivity.
+  - vm_compute. reflexivity.
+Qed.
+Print Assumptions C17_whole_run_differs_D1.
+
+(** ---- D3: Python's make_rule skips a second-difference column and then
+    raises InfiniteRule (rules.py:245-247, 256-262); rules.rs reads the column
+    as Unknown and returns no rule: outcome kind infrul vs xlimit.
+    Program [1RB 0LA 1LA 0RA  2LB 2RB 3RB 0LA], 830 cycles. ---- *)
+Definition C17_d3_program : comp_prog :=
+  [((0,0),(1,true,1)); ((0,1),(0,false,0)); ((0,2),(1,false,0)); ((0,3),(0,true,0));
+   ((1,0),(2,false,1)); ((1,1),(2,true,1)); ((1,2),(3,true,1)); ((1,3),(0,false,0))].
+Theorem C17_whole_run_differs_D3 :
+  (exists r, py_run C17_d3_program 830 = PyDone r /\ pr_kind r = PkInfrul /\ pr_cycles r = 820
+             /\ pr_marks r = 58 /\ pr_rulapp r = 515) /\
+  (exists r', run_prover C17_d3_program 830 = Ok r' /\ r_result r' = xlimit
+              /\ r_marks r' = 58 /\ r_rulapp r' = 515) /\
+  run_inside C17_d3_program 830 = false.
+Proof.
+  split; [|split].
+  - remember (py_run C17_d3_program 830) as x eqn:E. vm_compute in E. subst x.
+    eexists. split; [reflexivity|]. repeat split.
+  - remember (run_prover C17_d3_program 830) as x eqn:E. vm_compute in E. subst x.
+    eexists. split; [reflexivity|]. repeat split.
+  - vm_compute. reflexivity.
+Qed.
+Print Assumptions C17_whole_run_differs_D3.
+
+(** ---- D4 (component): while the min-signature is computed, a rule applied to
+    the EnumTape registers the blocks it reads in Python (tape.py:264-275
+    get_count -> check_offsets) and not in Rust (tape.rs:722-725): Python's
+    rule is less general.  One replay step on [1^5 [0] 2^3] with the stored
+    rule L0-1 R0+1. ---- *)
+Theorem C17_min_sig_differs_D4 :
+  let t := mkTape 0 [(1, 5)] [(2, 3)] in
+  let r : rule := [((false, 0), Plus (-1)); ((true, 0), Plus 1)] in
+  let p := py_set_rule py_prover_new r 0 (mkSig 0 [] [], (false, false)) in
+  py_get_min_sig [] p 1%Z 0 (py_to_enum t) (py_signature t)
+    = PRet (mkSig 0 [Mult 1] [Mult 2], (false, false)) /\
+  get_min_sig [] (rs_view p) 1%Z 0 (et_from t) (tape_sig t)
+    = Ok (mkSig 0 [] [], (false, false)).
+Proof. vm_compute. split; reflexivity. Qed.
+Print Assumptions C17_min_sig_differs_D4.
+
+(** ---- D6 (component): the cycle number.  pyo3 refuses a Python int beyond
+    i32 (OverflowError, not caught by run()); prover.rs:155 casts [as i32]. ---- *)
+Theorem C17_cycle_cast_differs_D6 :
+  fst (py_try_rule [] py_prover_new 2147483648 0 (init_tape 0)) = PRaise PeOverflowError /\
+  (exists pv', try_rule [] prover_new 2147483648 0 (init_tape 0) = Ok (None, pv')).
+Proof. split; [vm_compute; reflexivity|eexists; vm_compute; reflexivity]. Qed.
+Print Assumptions C17_cycle_cast_differs_D6.
+
+(** ---- min-signatures: Python keys EnumTape by object identity and re-uses
+    popped block objects, Rust numbers blocks by a field that pushed blocks do
+    not have.  That is NOT a difference (a block is registered in the step that
+    pops it, offsets only grow): whenever no stored rule matches during the
+    replay of get_min_sig the two min-signatures are equal, and then the D4
+    guard of the whole-run theorem holds by itself.  (D4 proper -- get_count
+    registers -- needs a rule application: C17_min_sig_differs_D4.) ---- *)
+From BB Require Import PyEnumAgree.
+
+Theorem C17_py_min_sig_agree_plain : forall comp pp pv,
+  lookup_eq (pp_rules pp) (pv_rules pv) ->
+  forall (d : Z) st t sig ms ms',
+  canon_tape t ->
+  replay_plain comp pp (Z.to_N d) st (py_to_enum t) = true ->
+  py_get_min_sig comp pp d st (py_to_enum t) sig = PRet ms ->
+  get_min_sig comp pv d st (et_from t) sig = Ok ms' ->
+  ms = ms'.
+Proof. exact min_sig_agree_plain. Qed.
+Print Assumptions C17_py_min_sig_agree_plain.
+
+Theorem C17_min_sig_guard_plain : forall comp p2 (d1 : Z) st t sig,
+  canon_tape t ->
+  replay_plain comp p2 (Z.to_N d1) st (py_to_enum t) = true ->
+  minsig_inside comp p2 d1 st t sig = true.
+Proof. exact replay_plain_minsig_inside. Qed.
+Print Assumptions C17_min_sig_guard_plain.
